@@ -88,6 +88,9 @@ def run_gev(case, R):
         Pn = Pn * np.eye(D)                       # uncorrelated sensor noise of unequal power: an exactly diagonal noise PSD
     elif nstruct == 'white':
         Pn = np.eye(D) * np.trace(Pn, axis1=-2, axis2=-1).real[..., None, None] / D + 0j
+    lvl = [1.0, 1.0, 1e-12, 1e-15, 1e9, 1.0][case['rs'][-1] % 6]
+    # the overall level of a recording is free (quiet far-field recordings, un-normalised integer samples): both statistics carry it
+    Px, Pn = Px * lvl, Pn * lvl
     variant = ['c', 'c', 'colmajor', 'real-target', 'fortran'][case['rs'][-1] % 5]
     if variant == 'colmajor':
         # (D, D) blocks stored column-major (e.g. the conjugate-transposed view of a C array, or a loadmat result)
@@ -97,7 +100,7 @@ def run_gev(case, R):
         Px, Pn = np.asfortranarray(Px), np.asfortranarray(Pn)
     elif variant == 'real-target':
         A = rng.standard_normal((*lead, D, max(1, case['rank'])))
-        Px = np.einsum('...ab,...cb->...ac', A, A)            # real symmetric PSD target with a real dtype, complex noise PSD
+        Px = np.einsum('...ab,...cb->...ac', A, A) * lvl      # real symmetric PSD target with a real dtype, complex noise PSD
     Px_before, Pn_before = Px.copy(), Pn.copy()
     info = dict(D=D, lead=list(lead), cond=case['cond'], rank=case['rank'], use_eig=case['use_eig'], impl='cython' if bf.c_gev_available else 'scipy', variant=variant)
     if not lead:
@@ -215,7 +218,9 @@ def run_rank1(case, R):
         # a mixed stack: the first matrix is exactly rank one, the others are not
         P = P.copy(); P[(0,) * len(lead)] = np.einsum('a,b->ab', a[(0,) * len(lead)], a[(0,) * len(lead)].conj())
     Pn = gen.hpd(rng, D, cond=min(case['cond'], 1e4), lead=lead)
-    info = dict(D=D, lead=list(lead), exact_rank_one=exact)
+    lvl = [1.0, 1.0, 1e-12, 1e-15, 1e9, 1.0][case['rs'][-1] % 6]
+    P, Pn = P * lvl, Pn * lvl                     # the overall level of a recording is free
+    info = dict(D=D, lead=list(lead), exact_rank_one=exact, level=lvl)
     for which in ('pca', 'pca:trace', 'pca:eigenvalue', 'gev', 'gev:use_eig'):
         try:
             if which.startswith('pca'):
